@@ -19,8 +19,10 @@ VARIABLES l, pre, obs, ev,
           rlisted,  \* reference: family -> ufrag -> connection registered by GetConn and not yet removed / closed
           started,  \* <<connection, canonical source>>: a write has started
           gone,     \* connections whose RemoveConnByUfrag / Close has returned
-          gsnap     \* gone when the dispatch in progress began
-vars == <<l, pre, obs, ev, mode, inj, ref, rlisted, started, gone, gsnap>>
+          gsnap,    \* gone when the dispatch in progress began
+          amb       \* concurrent traces: canonical sources for which "most recently wrote" has no definite answer (two connections'
+                    \* writes to it overlapped, or a write completed on a connection that was closed or being removed)
+vars == <<l, pre, obs, ev, mode, inj, ref, rlisted, started, gone, gsnap, amb>>
 Rng(s) == {s[i] : i \in 1..Len(s)}
 ConnsOf(o) == 1..Len(o.closed)
 KeysOf(o) == DOMAIN o.amap
@@ -30,7 +32,7 @@ Zero(o) == [f \in FamsOf(o) |-> [u \in UfragsOf(o) |-> 0]]
 Under(rl, u) == {rl[f][u] : f \in DOMAIN rl} \ {0}
 Init == /\ l = 2 /\ pre = Tr[1].post /\ obs = Tr[1].post /\ ev = Tr[1] /\ mode = Tr[1].mode
         /\ inj = <<>> /\ ref = [k \in KeysOf(Tr[1].post) |-> 0] /\ rlisted = Zero(Tr[1].post)
-        /\ started = {} /\ gone = {} /\ gsnap = {}
+        /\ started = {} /\ gone = {} /\ gsnap = {} /\ amb = {}
 \* reference effect of a completed removal of the connections cs
 Drop(rf, cs) == [k \in DOMAIN rf |-> IF rf[k] \in cs THEN 0 ELSE rf[k]]
 Step == /\ l <= Len(Tr) /\ l' = l + 1 /\ ev' = Tr[l] /\ obs' = Tr[l].post
@@ -46,7 +48,13 @@ Step == /\ l <= Len(Tr) /\ l' = l + 1 /\ ev' = Tr[l] /\ obs' = Tr[l].post
                   wk == IF e.ev = "WriteOp" THEN Canon(e.x) ELSE Canon(obs.wx[e.p])
                   rdone == e.ev = "RemoveOp" \/ e.ev = "RUnmap" \/ (e.ev = "RUnlist" /\ o.rpc = "idle")
                   cdone == e.ev \in {"CloseConn", "CloseOp"}
-              IN /\ ref' = CASE reset -> [k \in KeysOf(o) |-> 0]
+                  \* writes of other connections to the same source that are in progress when this one starts
+                  overlap == e.ev = "WStart" /\ \E p \in DOMAIN obs.wpc : obs.wpc[p] # "idle" /\ Canon(obs.wx[p]) = Canon(e.x) /\ obs.wc[p] # e.c
+                  \* a write that completes on a connection that is closed, gone, or the target of the removal in progress
+                  shaky == mode = "conc" /\ wdone /\ (o.closed[wc] \/ o.hclosed[wc] \/ wc \in gone
+                                                       \/ (o.rpc # "idle" /\ wc \in Under(rlisted, o.ru)))
+              IN /\ amb' = (IF reset THEN {} ELSE IF overlap THEN amb \cup {Canon(e.x)} ELSE IF shaky THEN amb \cup {wk} ELSE amb)
+                 /\ ref' = CASE reset -> [k \in KeysOf(o) |-> 0]
                              [] wdone -> [ref EXCEPT ![wk] = wc]
                              [] rdone -> Drop(ref, Under(rlisted, e.u))
                              [] cdone -> Drop(ref, {e.c})
@@ -89,6 +97,11 @@ AtMostOne == /\ Cardinality(Delivered) <= 1
 RightOne == (mode = "seq" /\ ev.ev = "DispatchOp") =>
                LET got == {d.c : d \in Delivered}  e1 == Expected(ev.x, ev.kd) IN
                got = Only(e1) \/ (e1 \in gone /\ got = Only(ByUfrag(ev.x, ev.kd)))
+\* concurrent traces, once every operation has finished: a plain datagram from each source goes to the connection that most
+\* recently completed a write to it, as in a sequential history - unless that has no definite answer (amb)
+RightOneAtQuiescence == (ev.ev = "ProbeOp") =>
+               LET got == {d.c : d \in Reads}  e1 == Expected(ev.x, ev.kd) IN
+               Canon(ev.x) \in amb \/ got = Only(e1) \/ (e1 \in gone /\ got = Only(ByUfrag(ev.x, ev.kd)))
 \* interleaved steps: the receiver is at least a connection that has begun a write to that source, or the one the USERNAME names
 RightOneWeak == \A d \in Delivered : d.n \in 1..Len(inj) =>
                    \/ <<d.c, Canon(d.src)>> \in started
@@ -111,6 +124,7 @@ GoneDeliveries == \A d \in Delivered : d.c \notin gsnap
 ClosedEmpty == \A c \in Conns : obs.closed[c] => obs.q[c] = <<>>
 GoneAfterRemove == GoneBindings /\ GoneDeliveries /\ ClosedEmpty
 P(n) == CASE n = "AtMostOne" -> AtMostOne [] n = "RightOne" -> RightOne [] n = "RightOneWeak" -> RightOneWeak
+          [] n = "RightOneAtQuiescence" -> RightOneAtQuiescence
           [] n = "Identical" -> Identical [] n = "PerConnFifo" -> PerConnFifo [] n = "NoForeignUfrag" -> NoForeignUfrag
           [] n = "GoneAfterRemove" -> GoneAfterRemove
 \* detail printed with a violation: the connection the reference expected (RightOne), else 0
